@@ -5,9 +5,10 @@ ID = 'C17'
 GENERATORS = ['gen_font']
 COQ_TARGETS = ['Props/C17.vo', 'Run/RunC17.vo']
 PROPS_MODULE = 'Props.C17'
-THEOREMS = ['psf2_roundtrip', 'psf2_roundtrip_general', 'raw_roundtrip', 'dcs_roundtrip', 'dcs_magic_collision_refuted',
-            'xbin_embed_roundtrip', 'adf_idf_embed_roundtrip', 'icydraw_embed_roundtrip',
-            'tdf_roundtrip', 'tdf_single_roundtrip', 'from_bytes_total', 'from_tdf_total', 'dcs_total', 'icydraw_read_total']
+THEOREMS = ['psf2_roundtrip', 'psf2_roundtrip_general', 'raw_roundtrip', 'wf_font_256_is_raw', 'dcs_roundtrip',
+            'dcs_magic_collision_refuted', 'known_1_witness', 'xbin_embed_roundtrip', 'adf_idf_embed_roundtrip',
+            'icydraw_embed_roundtrip', 'from_bytes_total', 'dcs_total', 'create_8_rows',
+            'tdf_roundtrip', 'tdf_single_roundtrip', 'tdf_writer_overflow_is_error', 'from_tdf_total']
 SWEEP_LEMMAS = []
 TRUSTED = ['Coq 8.16.1 kernel + vm_compute (model evaluation in stage C); no axioms (Print Assumptions: closed)',
            'translator/gen_font.py: extraction of the named constants of src/fonts.rs and src/tdf_font/mod.rs',
